@@ -130,3 +130,9 @@ claim("C49", "check liveness (config field -> rejecting branch) + hook wiring un
       "Decides: every TransactionLimitsConfig field feeds a branch with a rejecting arm in the system modules; all fields are classified; every "
       "TransactionLimitsError variant is produced under a branch; each LimitsModule hook is called from the same-named SystemModuleMixer callback "
       "on the enabled_modules.contains(LIMITS) arm; log/event/panic-message limits reject in the mixer. Boundary exactness is not decided.")
+
+claim("C45", "pipeline must-pass-through + constant struct literal agreement + rejection liveness",
+      "Decides: every WasmModule enforce_*/inject_*/ensure_* step and init is applied with `?` on every path to validate's success, each limit "
+      "step receiving the validator's own limit field; the WasmFeatures literal enables only mutable_global and sign_extension (floats, threads, "
+      "simd, bulk memory, reference types, multi-value, multi-memory, memory64, tail calls, exceptions … are false) and is what ModuleInfo::validate "
+      "receives; rejection variants are live (legacy ones frozen with reasons). That each step's predicate is right for every module is not decided.")
